@@ -1250,14 +1250,13 @@ example : Sample X.ops true ⟨.fin 1, 2, .fin 1, .fin 0, false⟩ (.fin 0) [X.f
 /-- **sample_admissible_fixed for IEEE-like carriers** (the code in /repo, temperature > 0): relativised
     laws (`OrdLawsOn`, `ArithLawsOn`, `BeqLawOn` — satisfied by the witness carrier with NaN and ±Inf:
     `xLawsOn`, `xArithLawsOn`, `xBeqLawOn`); the run guard `runGood` (no NaN is ever compared: scaled
-    values, probabilities, running sums, threshold, cumulative sums, target) and "no NaN after the
-    shift" join the run contracts.  Conclusion as in `sample_admissible_fixed_partial`: the logit of
+    values, probabilities, running sums, threshold, cumulative sums, target) joins the run contracts.  Conclusion as in `sample_admissible_fixed_partial`: the logit of
     the returned id is not `-Inf` and the id is that of a member of the filter set. -/
 theorem sample_admissible_fixed_on {o : Ops α} (h : OrdLawsOn o) (ha : ArithLawsOn o) (hb : BeqLawOn o)
     (P : Params α) (r : α) (logits : List α) (id : Nat) (ht : o.beq P.temp o.zero = false)
     (hS : Sample o true P r logits = .ok id) :
     ∃ L1, shiftMax o (topK o P.topK (mkTokens logits)) = .ok L1 ∧
-    (runGood o P r L1 = true → (∀ v ∈ L1.map (·.val), o.isNaN v = false) →
+    (runGood o P r L1 = true →
      guardOK o (scaledOf o P L1) = true →
      scaleOK o ((topK o P.topK (mkTokens logits)).map (·.val)) (L1.map (·.val)) = true →
      scaleOK o (L1.map (·.val)) (scaledOf o P L1) = true →
@@ -1270,8 +1269,8 @@ theorem sample_admissible_fixed_on {o : Ops α} (h : OrdLawsOn o) (ha : ArithLaw
   simp only [ht, Bool.false_eq_true, if_false] at hc
   obtain ⟨L1, hs, hrest⟩ := afterTopK_spec_fix_on h ha hb P r _ t hc
   refine ⟨L1, hs, ?_⟩
-  intro hrg hL1 hg hsh hsc hsm
-  obtain ⟨idx, y, f, x, hy, hyid, hyv, hf, hpre, hx, hxid⟩ := hrest hrg hL1 hg hsh hsc hsm
+  intro hrg hg hsh hsc hsm
+  obtain ⟨idx, y, f, x, hy, hyid, hyv, hf, hpre, hx, hxid⟩ := hrest hrg hg hsh hsc hsm
   have hym : y ∈ mkTokens logits := topK_mem o _ _ y (List.mem_of_getElem? hy)
   have := mkTokens_mem logits y hym
   rw [hyid, hid] at this
@@ -1358,7 +1357,7 @@ theorem grammar_retry_admissible_fixed_on {o : Ops α} (h : OrdLawsOn o) (ha : A
         (if P.topK ≥ ((maskLogits o acc logits).length : Int) ∨ P.topK ≤ 0 then (maskLogits o acc logits).length
          else P.topK.toNat)) ∧
     ∃ L1, shiftMax o (topK o P.topK (mkTokens (maskLogits o acc logits))) = .ok L1 ∧
-    (runGood o P r L1 = true → (∀ v ∈ L1.map (·.val), o.isNaN v = false) →
+    (runGood o P r L1 = true →
      guardOK o (scaledOf o P L1) = true →
      scaleOK o ((topK o P.topK (mkTokens (maskLogits o acc logits))).map (·.val)) (L1.map (·.val)) = true →
      scaleOK o (L1.map (·.val)) (scaledOf o P L1) = true →
@@ -1370,8 +1369,8 @@ theorem grammar_retry_admissible_fixed_on {o : Ops α} (h : OrdLawsOn o) (ha : A
   refine ⟨sample_in_topk_on h true P r _ id ht hnm hS, ?_⟩
   obtain ⟨L1, hs, hrest⟩ := sample_admissible_fixed_on h ha hb P r _ id ht hS
   refine ⟨L1, hs, ?_⟩
-  intro hrg hL1 hg hsh hsc hsm
-  obtain ⟨⟨v, hv, hne⟩, f, hf, _, x, hx, hxid⟩ := hrest hrg hL1 hg hsh hsc hsm
+  intro hrg hg hsh hsc hsm
+  obtain ⟨⟨v, hv, hne⟩, f, hf, _, x, hx, hxid⟩ := hrest hrg hg hsh hsc hsm
   have hacc := masked_not_neginf_accepted o hrefl acc logits id v hv hne
   obtain ⟨w, hw, hvw⟩ := maskLogits_get o acc logits id v hv
   rw [hacc] at hvw
